@@ -48,12 +48,22 @@ def candidates(path):
     res = []
     in_test = False
     depth_at_test = None
+    in_migrate = False
     for i, line in enumerate(src):
         st = line.strip()
         if "#[cfg(test)]" in st:
             in_test = True
         if in_test:
             continue  # test modules sit at the end of the files of this repository
+        # `migrate` handlers: version tests no listed property speaks about (first sweep: 14 silent survivors)
+        if re.match(r"pub fn migrate\b", st) or "--with-migrate" in args and False:
+            in_migrate = True
+        if in_migrate:
+            if line.startswith("}"):
+                in_migrate = False
+            continue
+        if 'feature = "osmosis"' in st or 'feature = "injective"' in st or 'feature = "token_factory"' in st:
+            continue
         if st.startswith("//") or st.startswith("#[") or st.startswith("use ") or not st:
             continue
         code = line.split("//")[0]
